@@ -497,6 +497,24 @@ pub fn check_strict(
         if gated && matches!(k, OpKind::Map { .. } | OpKind::Stream { .. }) {
           continue;
         }
+        // equal values: the map's own fields (not positions) must agree too
+        if let (Answer::Map(Some(mx)), Answer::Map(Some(my))) = (&x, &y) {
+          let meta = |m: &crate::exec::MapAns| (m.file.clone(), m.source_root.clone(), m.debug_id.clone());
+          if meta(mx) != meta(my) {
+            violations.push(Violation {
+              kind: "equal_values_answer_differently".into(),
+              op_class: k.class().into(),
+              detail: format!(
+                "a == {} but {} gives (file, sourceRoot, debugId) = {:?} on a and {:?} on {}",
+                name,
+                k.label(),
+                meta(mx),
+                meta(my),
+                name
+              ),
+            });
+          }
+        }
         if key_of(&x, k, &texts[0].0, attribution, ascii[0] && ascii[other]) != key_of(&y, k, &texts[other].0, attribution, ascii[0] && ascii[other]) {
           violations.push(Violation {
             kind: "equal_values_answer_differently".into(),
@@ -973,7 +991,8 @@ pub fn edit_tree(rng: &mut Rng, t: &TreeSpec) -> TreeSpec {
       }
       return m;
     }
-    match rng.below(6) {
+    match rng.below(7) {
+      6 => m.debug_id = Some(m.debug_id.clone().map_or("DBG-2".into(), |f| f + "x")),
       0 => m.mappings.push_str(";AAAA"),
       1 => m.sources.push("extra.js".into()),
       2 => m.names.push("extra".into()),
